@@ -4,6 +4,7 @@ import (
 	"encoding/binary"
 	"fmt"
 	"hash/fnv"
+	"sort"
 )
 
 // LSHIndex implements MinHash LSH with banding
@@ -64,6 +65,8 @@ func (idx *LSHIndex) FindCandidates(signature *MinHashSignature) []string {
 	for id := range ids {
 		out = append(out, id)
 	}
+	// Sorted so that candidates are verified (and pairs emitted) in a deterministic order
+	sort.Strings(out)
 	return out
 }
 
